@@ -315,13 +315,20 @@ func streamC17(c *Ctx) {
 				}
 			}
 			// full iteration
-			for _, rev := range []bool{false, true} {
-				got, _ := scan(nil, rev, 0)
+			for _, rev := range []bool{false, true, false, true} {
+				stop := 0
+				if g.pick(2) == 0 {
+					stop = 1 + g.pick(3)
+				}
+				got, _ := scan(nil, rev, stop)
 				want := append([]string{}, ids...)
 				if rev {
 					for a, b := 0, len(want)-1; a < b; a, b = a+1, b-1 {
 						want[a], want[b] = want[b], want[a]
 					}
+				}
+				if stop > 0 && len(want) > stop {
+					want = want[:stop]
 				}
 				if strings.Join(got, ",") != strings.Join(want, ",") {
 					c.Violation(&Replay{Backend: be, Stream: "scan", Case: append(toIfaces(lines), J{"k": "scan", "coll": hx("i"), "field": hx("x"), "rev": rev}), Expected: []string{strings.Join(want, ",")}, Actual: []string{strings.Join(got, ",")}, Note: "full index iteration does not yield every document once in order"})
